@@ -66,7 +66,7 @@ def _explore(out, tier, seed, facts, replay):
     exprs, expected, descr = [], [], []
     ncase = 120 if tier == "quick" else 1200
     M = {n: getattr(verif.metric, n)() for n in ["Bs", "BsUnc", "Bss", "BsRel", "BsRes", "BssRel", "BssRes", "QuantileScore", "Spread",
-                                                 "MarginalRatio", "Spherical", "Ign0"]}
+                                                 "MarginalRatio", "Spherical", "Ign0", "QuantileCoverage"]}
     for _ in range(ncase):
         L = rng.randint(1, 10)
         kind = rng.random()
@@ -114,9 +114,62 @@ def _explore(out, tier, seed, facts, replay):
         exp.append(float(M["QuantileScore"].compute_single(st2, 0, None, None, qiv)))
         terms.append("Spread_core XF %s %s" % (fl_list(qf), fl_list(qf2)))
         exp.append(float(M["Spread"].compute_single(st2, 0, None, None, qiv)))
+        # coverage of the interval between two forecast quantiles, for every bin type; observations equal
+        # to a quantile are frequent here (values are drawn from small sets)
+        cbt = rng.choice(BTS)
+        civ = verif.util.get_intervals(cbt, np.array([q, 0.95]))[0]
+        qa = st2.quant[round(float(civ.lower), 6)] if not math.isinf(civ.lower) else qf      # array of the lower quantile level (unused when infinite)
+        qb = st2.quant[round(float(civ.upper), 6)] if not math.isinf(civ.upper) else qf2
+        terms.append("QuantileCoverage_core XF %s %s %s %s" % (ivt(civ), fl_list(xs), fl_list(qa), fl_list(qb)))
+        exp.append(float(M["QuantileCoverage"].compute_single(st2, 0, None, None, civ)))
         exprs.append("[" + "; ".join(terms) + "]")
         expected.append(exp)
-        descr.append({"obs_event": o, "prob": p, "bin_type": bt, "values": xs, "cdf_lower": c_lo, "cdf_upper": c_hi, "quantile": q})
+        descr.append({"obs_event": o, "prob": p, "bin_type": bt, "values": xs, "cdf_lower": c_lo, "cdf_upper": c_hi, "quantile": q,
+                      "coverage_bin_type": cbt, "q_lower": qf, "q_upper": qf2})
+    # evaluating one probabilistic metric must not change what another one returns afterwards (the arrays a metric
+    # gets from Data.get_scores are cached there: a metric that writes into them corrupts every later score)
+    for rep_ in range(6 if tier == "quick" else 40):
+        nt_, nl_, ns_ = 2, 2, rng.randint(1, 3)
+        cube = lambda vals: [[[rng.choice(vals) for _ in range(ns_)] for _ in range(nl_)] for _ in range(nt_)]
+        spec = {"times": [0, 86400], "leads": [0.0, 6.0], "locs": [[i + 1, 0.0, 0.0, 0.0] for i in range(ns_)],
+                "fields": {"obs": cube([0.0, 1.0, 2.5, 4.0]), "fcst": cube([1.0, 2.0])}}
+        t1, t2 = 1.0, 2.5
+        lo = np.array(cube(PV[1:6]), float)
+        hi = np.minimum(1.0, lo + np.array(cube([0.0, 0.05, 0.3]), float))
+
+        def fresh_data():
+            inp = datagen.mem_input(spec, "p")
+            inp.thresholds = np.array([t1, t2])
+            inp.threshold_scores = np.stack([lo, hi], axis=3)
+            return verif.data.Data([inp])
+        bt = rng.choice(BTS)
+        iv = verif.util.get_intervals(bt, np.array([t1, t2]))[0]
+        names2 = ["Bs", "Bss", "Ign0", "Spherical", "MarginalRatio", "BsRel"]
+        alone = {}
+        for n2 in names2:
+            try:
+                alone[n2] = float(M[n2].compute(fresh_data(), 0, verif.axis.No(), iv)[0])
+            except Exception as e:
+                alone[n2] = "exception %s" % type(e).__name__
+        for n1 in names2:
+            dshared = fresh_data()
+            try:
+                M[n1].compute(dshared, 0, verif.axis.No(), iv)
+            except Exception:
+                continue
+            for n2 in names2:
+                nf_extra = 1
+                try:
+                    v2 = float(M[n2].compute(dshared, 0, verif.axis.No(), iv)[0])
+                except Exception as e:
+                    v2 = "exception %s" % type(e).__name__
+                a2 = alone[n2]
+                same = (v2 == a2) if isinstance(v2, str) or isinstance(a2, str) else close(v2, a2, 1e-12)
+                if not same:
+                    out.violation("metric-side-effect:%s" % n1.lower(), "-b %s: after evaluating %s on a dataset, %s returns %r; evaluated first it returns %r "
+                                  "(the metric altered the arrays cached in the dataset)" % (bt, n1, n2, v2, a2),
+                                  {"bin_type": bt, "first": n1, "then": n2, "obs": spec["fields"]["obs"], "cdf_at_1": lo.tolist(), "cdf_at_2.5": hi.tolist()})
+                    break
     # ensemble-derived probabilities and quantiles through Data
     nens = 40 if tier == "quick" else 400
     ens_cases = []
@@ -189,6 +242,21 @@ def _explore(out, tier, seed, facts, replay):
         for nm, g, w in zip(names, exp[:7], want):
             if not close(g, w, 1e-9):
                 out.violation("definition:%s" % nm, "%s(obs=%r, p=%r) = %r, definition gives %r" % (nm, o, p, g, w), {"metric": nm, "obs": o, "p": p})
+        # coverage of the quantile interval: the documented open/closed ends per bin type
+        cbt, xs_, ql, qu = dsc["coverage_bin_type"], dsc["values"], dsc["q_lower"], dsc["q_upper"]
+        lo_closed = cbt in ("above=", "=within", "=within=")
+        hi_closed = cbt in ("below=", "within=", "=within=")
+        def inside(x, a, b):
+            if cbt.startswith("below"):
+                return x <= a if hi_closed else x < a
+            if cbt.startswith("above"):
+                return a <= x if lo_closed else a < x
+            return (a <= x if lo_closed else a < x) and (x <= b if hi_closed else x < b)
+        wantc = sum(1 for x, a, b in zip(xs_, ql, qu) if inside(x, a, b)) / len(xs_)
+        if not close(exp[-1], wantc, 1e-9):
+            out.violation("definition:quantilecoverage:%s" % cbt, "QuantileCoverage with -b %s: obs=%r lower quantile=%r upper quantile=%r gives %r, "
+                          "the fraction of observations inside the interval is %r" % (cbt, xs_, ql, qu, exp[-1], wantc),
+                          {"metric": "quantilecoverage", "bin_type": cbt, "obs": xs_, "q_lower": ql, "q_upper": qu})
         # Murphy decomposition when forecasts take a single value per bin
         single = all(len({p[j] for j in range(n) if edges[i] <= p[j] < edges[i + 1]}) <= 1 for i in range(10))
         if single and not close(exp[0], exp[3] - exp[4] + exp[1], 1e-9):
